@@ -405,6 +405,8 @@ class World:
         self.cur_task = None
         self.cur_uid = None
         self.k = 0                  # inner point index inside current op
+        self.kp = 0                 # primary LAPACK driver calls inside current op
+        self.ks = 0                 # secondary (fallback) driver calls inside current op
         self.seq = 0                # global logical clock
         self.check_hits = check_hits
         self.watch_entries = watch_entries
@@ -434,6 +436,8 @@ class World:
         self.cur_task = task
         self.cur_uid = uid
         self.k = 0
+        self.kp = 0
+        self.ks = 0
         self.seq += 1
 
     def addr(self):
@@ -547,12 +551,22 @@ class World:
         self.stats["driver_calls"] += 1
         self.stats["driver_" + kind] += 1
         ad = self.addr()
+        primary = kind in ("svd_gesdd", "svd_gesdd_vals", "eigh_scipy", "svds_arpack")
+        # second address space: ordinal of the primary / secondary driver call inside the current op,
+        # independent of cache lookups and of earlier failures ("fail the primary driver on block j")
+        if primary:
+            pad = "%s/%s/P%d" % (self.cur_task, self.cur_uid, self.kp)
+            self.kp += 1
+        else:
+            pad = "%s/%s/S%d" % (self.cur_task, self.cur_uid, self.ks)
+            self.ks += 1
         act = None
         if self.mode == "plan":
-            act = self.plan.get(ad)
+            act = self.plan.get(ad) or self.plan.get(pad)
+            if act is not None and pad in self.plan:
+                ad = pad
         else:
             fc = self.fc
-            primary = kind in ("svd_gesdd", "svd_gesdd_vals", "eigh_scipy", "svds_arpack")
             p = fc.get("p_lapack", 0.0) if primary else fc.get("p_lapack2", 0.0)
             if p and self.frng.random() < p:
                 act = ["lapack_fail", kind]
@@ -560,7 +574,7 @@ class World:
             return False
         if act[0] != "lapack_fail":
             return False
-        self.inner_fired[ad] = ["lapack_fail", kind]
+        self.inner_fired[pad if self.mode != "plan" else ad] = ["lapack_fail", kind]
         self.stats["fault_lapack_fail"] += 1
         self.stats["fault_lapack_fail_" + kind] += 1
         shp = getattr(a, "shape", None)
